@@ -1,6 +1,7 @@
 package props
 
 import (
+	"strconv"
 	"encoding/base64"
 	"fmt"
 	"net/http"
@@ -148,7 +149,44 @@ type c09Result struct {
 	Class       string
 }
 
+// c09ExecEnv: a valid request of one of the endpoint scenarios (shared with C10) while ONE storage operation answers with a
+// failure (Key = "op#occurrence:kind"; Body = "after-success": the same request was served fault-free first). "Whatever is
+// ... inconsistent" includes what storage hands back: the handler must still end with a regular response.
+func c09ExecEnv(c c09Case) c09Result {
+	res := c09Result{Labels: []string{"storage-answer", "scenario=" + c.Base, "fault=" + c.Key}}
+	if c.Body != "" {
+		res.Labels = append(res.Labels, c.Body)
+	}
+	var sc *c10Scenario
+	for _, s := range c10Scenarios() {
+		if s.Name == c.Base {
+			s := s
+			sc = &s
+		}
+	}
+	if sc == nil {
+		panic("c09: unknown scenario " + c.Base)
+	}
+	var plan []c10Fault
+	if c.Key != "" {
+		i, j := strings.Index(c.Key, "#"), strings.Index(c.Key, ":")
+		occ, _ := strconv.Atoi(c.Key[i+1 : j])
+		plan = []c10Fault{{Op: c.Key[:i], Occ: occ, Kind: c.Key[j+1:]}}
+	}
+	w, req := c10Build(*sc, plan, c.Body != "")
+	rep := w.Do(req)
+	if rep.Panic != "" {
+		res.Panic, res.Site, res.Class = rep.Panic, rep.PanicSite, "panic"
+	} else {
+		res.Class = fmt.Sprintf("http-%d", rep.Status)
+	}
+	return res
+}
+
 func c09Exec(c c09Case, bases []c09Base, meta *xt.Node) c09Result {
+	if c.Fam == "env" {
+		return c09ExecEnv(c)
+	}
 	res := c09Result{}
 	record := func(rep *world.Reply) {
 		if rep.Panic != "" {
@@ -483,6 +521,23 @@ func runC09(ctx Ctx) int {
 			}
 		}
 	}
+	// storage answers: every endpoint scenario x every storage call it makes x every failure kind of that operation,
+	// on a fresh provider and after the same request was served successfully
+	nEnv := 0
+	for _, sc := range c10Scenarios() {
+		w, req := sc.Build()
+		occ := map[string]int{}
+		for _, call := range w.Do(req).Calls {
+			occ[call.Op]++
+			for _, kind := range c10Kinds(call.Op) {
+				for _, primed := range []string{"", "after-success"} {
+					cases = append(cases, c09Case{Fam: "env", Base: sc.Name, Key: fmt.Sprintf("%s#%d:%s", call.Op, occ[call.Op], kind), Body: primed})
+					nEnv++
+				}
+			}
+		}
+	}
+	run.Set("storage_answer_cases", nEnv)
 	deadline := devx.Deadline(map[string]time.Duration{"quick": 4 * time.Minute, "thorough": 25 * time.Minute}[run.Tier])
 	n, complete := parallel(len(cases), deadline, func(i int) {
 		c := cases[i]
